@@ -2061,6 +2061,62 @@ func flagRules(r *Report, typ, setter, getter string, unsetters ...string) {
 		}
 	}
 	r.Decide("sibling", fmt.Sprintf("(*M.%s).%s is what (*M.%s).%s reports", typ, setter, typ, getter), len(shared) > 0, "the getter loads a field the setter stores", "the getter does not read what the setter writes: the mark is never seen", sf.Pos())
+	// ... and nothing else: the getter's result is computed from fields of its receiver (and
+	// constants), not from state of another object (a session value, a global) that outlives the
+	// thing the mark was put on
+	if len(shared) > 0 && len(gf.Params) > 0 {
+		foreign := ""
+		var leafOK func(v ssa.Value, depth int) bool
+		leafOK = func(v ssa.Value, depth int) bool {
+			if depth > 6 {
+				return false
+			}
+			switch x := v.(type) {
+			case *ssa.Const:
+				return true
+			case *ssa.UnOp:
+				if x.Op == token.NOT {
+					return leafOK(x.X, depth+1)
+				}
+				if x.Op == token.MUL {
+					if fa, isFa := x.X.(*ssa.FieldAddr); isFa && isParamVal(fa.X, gf.Params[0]) {
+						return true
+					}
+				}
+			case *ssa.BinOp:
+				return leafOK(x.X, depth+1) && leafOK(x.Y, depth+1)
+			case *ssa.Call:
+				if strings.HasPrefix(calleeName(x), "sync/atomic.Load") || strings.HasSuffix(calleeName(x), ".Load") {
+					if fa, isFa := x.Call.Args[0].(*ssa.FieldAddr); isFa && isParamVal(fa.X, gf.Params[0]) {
+						return true
+					}
+				}
+			case *ssa.Phi:
+				for _, e := range x.Edges {
+					if !leafOK(e, depth+1) {
+						return false
+					}
+				}
+				return true
+			case *ssa.Convert:
+				return leafOK(x.X, depth+1)
+			}
+			return false
+		}
+		for _, ret := range returns(gf) {
+			if len(ret.Results) == 0 {
+				continue
+			}
+			for _, rv := range retVals(ret, 0) {
+				for _, l := range resolveAll(rv) {
+					if !leafOK(l, 0) {
+						foreign = l.String()
+					}
+				}
+			}
+		}
+		r.Decide("flow", fmt.Sprintf("(*M.%s).%s reports its receiver's own mark only", typ, getter), foreign == "", "every value returned is computed from fields of the receiver", "the getter also answers from something that is not a field of its receiver ("+foreign+"): a mark put on one exchange (or connection) is reported for others that never received it", gf.Pos())
+	}
 	isRMW := func(fw flagWrite) bool {
 		if c, ok := fw.at.(*ssa.Call); ok && strings.HasPrefix(calleeName(c), "sync/atomic.Add") {
 			return true
@@ -2115,6 +2171,13 @@ func flagRules(r *Report, typ, setter, getter string, unsetters ...string) {
 					}
 				}
 				r.Decide("flow", fmt.Sprintf("(*M.%s).%s sets %s", typ, setter, fw.fo.Name()), (isB && b) || isRMW(fw) || enum, "stores true, adds its bit to the field, or stores the state constant the getter compares with", "the setter stores something else than true / its own bit / the getter's state", fw.at.Pos())
+				// ... whenever it is called: no path through the setter avoids the write (a mark that an
+				// earlier call can veto is not the mark the caller asked for)
+				if fw.fn == sf && sf.Signature.Results().Len() == 0 {
+					gs := G(sf)
+					skip := gs.PathTo([]ssa.Instruction{gs.Entry()}, true, func(i ssa.Instruction) bool { return i == fw.at }, isReturn)
+					r.Decide("path", fmt.Sprintf("(*M.%s).%s sets %s on every call", typ, setter, fw.fo.Name()), skip == nil, "the write lies on every path to the return", "the setter can return without writing the mark (a condition on earlier state): a later call does not set what the caller asked for - e.g. a session that was once marked insecure can never be marked secure again, and the requests that follow are handled in cleartext", fw.at.Pos())
+				}
 				continue
 			}
 			isUnsetter := false
@@ -2855,6 +2918,30 @@ func goBlockRule(r *Report, rels ...string) {
 			}
 		}
 	}
+	// bare sends per channel origin, over all goroutines: a buffer absorbs as many sends as it has
+	// slots, not one per sender
+	sendsPer := map[*ssa.MakeChan]int{}
+	for _, f := range w.Funcs(rels...) {
+		for _, in := range instrs(f) {
+			gs, ok := in.(*ssa.Go)
+			if !ok {
+				continue
+			}
+			fn := goTarget(gs)
+			if fn == nil || fn.Blocks == nil {
+				continue
+			}
+			for _, gi := range instrs(fn) {
+				if sd, isSd := gi.(*ssa.Send); isSd {
+					for v := range w.backSlice(sd.Chan, flowOpt{Fields: true, Params: true}) {
+						if mk, isMk := v.(*ssa.MakeChan); isMk {
+							sendsPer[mk]++
+						}
+					}
+				}
+			}
+		}
+	}
 	for _, f := range w.Funcs(rels...) {
 		for _, in := range instrs(f) {
 			gs, ok := in.(*ssa.Go)
@@ -2888,7 +2975,7 @@ func goBlockRule(r *Report, rels ...string) {
 						origins++
 						sz, isK := constInt(x.Size)
 						if kind == "send" {
-							if !(isK && sz >= 1 && (!inLoop(gi.Block()) || latchedOnce(gi))) && !joined(f, gs, x) {
+							if !(isK && sz >= 1 && int64(sendsPer[x]) <= sz && (!inLoop(gi.Block()) || latchedOnce(gi))) && !joined(f, gs, x) {
 								okOp = false
 							}
 						} else if !closedMake[x] {
@@ -2912,7 +2999,7 @@ func goBlockRule(r *Report, rels ...string) {
 					r.Hold("flow", fmt.Sprintf("%s: goroutine literal #%d: bare %s #%d", fnName(f), ordinalGo(f, gs), kind, n), "the channel is a parameter of the creating function: its completion is the caller's contract")
 					continue
 				}
-				r.Decide("flow", fmt.Sprintf("%s: goroutine literal #%d: bare %s #%d cannot park forever", fnName(f), ordinalGo(f, gs), kind, n), okOp && origins > 0, "the channel is buffered for the single send / joined by the creator / closed by its owner", fmt.Sprintf("the goroutine %ss outside a select on a channel that nothing is obliged to complete once the creating function has returned (unbuffered or looped send with no join, or a receive from a channel nobody closes): the goroutine stays blocked after the session ends", kind), gi.Pos())
+				r.Decide("flow", fmt.Sprintf("%s: goroutine literal #%d: bare %s #%d cannot park forever", fnName(f), ordinalGo(f, gs), kind, n), okOp && origins > 0, "the channel has a slot for every send made on it / is joined by the creator / is closed by its owner", fmt.Sprintf("the goroutine %ss outside a select on a channel that nothing is obliged to complete once the creating function has returned (unbuffered or looped send with no join, more senders than buffer slots, or a receive from a channel nobody closes): the goroutine stays blocked after the session ends", kind), gi.Pos())
 			}
 		}
 	}
@@ -3201,6 +3288,12 @@ func guardedFieldsRule(r *Report, rel, typ, mutex string, fields []string, why s
 // already), until it reaches a block that does something else than branch.
 // ok is false when a condition cannot be evaluated.
 func decide(b *ssa.BasicBlock, leaf func(ssa.Value) (bool, bool)) (*ssa.BasicBlock, bool) {
+	return decideWith(b, leaf, nil)
+}
+
+// decideWith: as decide, with additional instructions (calls the caller gives a value to) accepted
+// inside the condition blocks.
+func decideWith(b *ssa.BasicBlock, leaf func(ssa.Value) (bool, bool), alsoPure func(ssa.Instruction) bool) (*ssa.BasicBlock, bool) {
 	var eval func(v ssa.Value) (bool, bool)
 	eval = func(v ssa.Value) (bool, bool) {
 		if k, ok := constBool(v); ok {
@@ -3215,39 +3308,24 @@ func decide(b *ssa.BasicBlock, leaf func(ssa.Value) (bool, bool)) (*ssa.BasicBlo
 	prev := b
 	start := b
 	for steps := 0; steps < 64; steps++ {
-		iff, ok := b.Instrs[len(b.Instrs)-1].(*ssa.If)
-		if !ok {
-			// the arm of a short-circuit operator used as a value (`case a && b:`): a pure block that
-			// jumps to a block holding only the merge phi and the branch on it
-			if _, isJ := b.Instrs[len(b.Instrs)-1].(*ssa.Jump); isJ && len(b.Succs) == 1 && (b == prev || pureCondBlock(b)) {
-				nb := b.Succs[0]
-				if nif, isIf := nb.Instrs[len(nb.Instrs)-1].(*ssa.If); isIf && !nb.Dominates(start) {
-					if ph, isPhi := nif.Cond.(*ssa.Phi); isPhi && ph.Block() == nb && onlyPhisBefore(nb) {
-						prev, b = b, nb
-						continue
-					}
-				}
-			}
-			return b, true
-		}
 		// going round a loop (a block that dominates the starting point) is an outcome
 		if b != start && b.Dominates(start) {
 			return b, true
 		}
-		// only pure condition blocks are walked through (phis of boolean merges, the compared loads)
-		if b != prev {
-			for _, in := range b.Instrs[:len(b.Instrs)-1] {
-				switch x := in.(type) {
-				case *ssa.Phi, *ssa.BinOp, *ssa.UnOp, *ssa.FieldAddr, *ssa.DebugRef, *ssa.Convert:
-				case *ssa.Call:
-					// length queries only: any other call is an effect, i.e. an outcome
-					if bi, isB := x.Call.Value.(*ssa.Builtin); !(isB && bi.Name() == "len") && calleeName(x) != "(*bytes.Buffer).Len" {
-						return b, true
-					}
-				default:
-					return b, true
-				}
+		// only pure condition blocks are walked through (phis of merges, the compared loads, length
+		// queries): anything else is an effect, i.e. an outcome
+		if b != prev && !pureCondBlockWith(b, alsoPure) {
+			return b, true
+		}
+		iff, ok := b.Instrs[len(b.Instrs)-1].(*ssa.If)
+		if !ok {
+			// a pure block that only jumps on (the arm of a short-circuit operator used as a value,
+			// the arm of a clamp `if a < b { b = a }`): the decision continues in its successor
+			if _, isJ := b.Instrs[len(b.Instrs)-1].(*ssa.Jump); isJ && len(b.Succs) == 1 {
+				prev, b = b, b.Succs[0]
+				continue
 			}
+			return b, true
 		}
 		var cond ssa.Value = iff.Cond
 		// a boolean merge: the phi's value is decided by where we came from
@@ -3283,8 +3361,13 @@ func onlyPhisBefore(b *ssa.BasicBlock) bool {
 	return true
 }
 
-func pureCondBlock(b *ssa.BasicBlock) bool {
+func pureCondBlock(b *ssa.BasicBlock) bool { return pureCondBlockWith(b, nil) }
+
+func pureCondBlockWith(b *ssa.BasicBlock, alsoPure func(ssa.Instruction) bool) bool {
 	for _, in := range b.Instrs[:len(b.Instrs)-1] {
+		if alsoPure != nil && alsoPure(in) {
+			continue
+		}
 		switch x := in.(type) {
 		case *ssa.Phi, *ssa.BinOp, *ssa.UnOp, *ssa.FieldAddr, *ssa.DebugRef, *ssa.Convert:
 		case *ssa.Call:
@@ -3335,6 +3418,193 @@ func natLoops(f *ssa.Function) []natLoop {
 	// byHead pointers may dangle after append growth: rebuild from out is unnecessary here
 	// because each natLoop holds its own map
 	return out
+}
+
+// funcFieldCallsRule: a call through a func-typed field of a module struct is
+// either dominated by a non-nil test of the same access path, or the field is
+// never nil: every function that allocates the struct stores a value in it
+// (its constructors) and every other store outside a nil-test's nil edge ...
+// kept simple: every store to the field in the module stores a non-nil value,
+// and every allocation of the struct type happens in a function that stores
+// the field. A nil call panics, and nothing in the proxy recovers.
+func funcFieldCallsRule(r *Report, rels ...string) {
+	w := r.W
+	n := 0
+	neverNil := map[*types.Var]int{} // 0 unknown, 1 yes, 2 no
+	decide := func(fo *types.Var, owner types.Type) bool {
+		if v := neverNil[fo]; v != 0 {
+			return v == 1
+		}
+		ok := true
+		// every store stores a value that cannot be nil (a function, a closure, or a value tested non-nil)
+		for _, st := range w.fieldStores(fo) {
+			for _, l := range resolveAll(st.Val) {
+				switch x := l.(type) {
+				case *ssa.Function, *ssa.MakeClosure:
+				case *ssa.Const:
+					if x.IsNil() {
+						ok = false
+					}
+				case *ssa.Parameter:
+					// what a caller passes to a setter or an option is the caller's contract
+				default:
+					// a parameter spilled to a cell (captured by a closure)
+					if ld, isLd := l.(*ssa.UnOp); isLd && ld.Op == token.MUL {
+						if a, isA := ld.X.(*ssa.Alloc); isA {
+							if sts := storesTo(a); len(sts) == 1 {
+								if _, isP := sts[0].Val.(*ssa.Parameter); isP {
+									continue
+								}
+							}
+						}
+					}
+					// a free variable of an option closure: the option's argument
+					if _, isFv := l.(*ssa.FreeVar); isFv {
+						continue
+					}
+					guarded := false
+					for _, ce := range ctrlEdges(st.Block()) {
+						if b, isB := ce.If.Cond.(*ssa.BinOp); isB && (b.Op == token.EQL || b.Op == token.NEQ) {
+							other := b.X
+							if isNilConst(b.X) {
+								other = b.Y
+							} else if !isNilConst(b.Y) {
+								continue
+							}
+							if (other == l || sameAs(other, l)) && (b.Op == token.NEQ) == ce.Taken {
+								guarded = true
+							}
+						}
+					}
+					if !guarded {
+						ok = false
+					}
+				}
+			}
+		}
+		// every allocation of the struct is in a function that stores the field
+		for _, f := range w.fns {
+			allocs := false
+			for _, in := range instrs(f) {
+				if a, isA := in.(*ssa.Alloc); isA {
+					if p, isP := a.Type().(*types.Pointer); isP && types.Identical(p.Elem(), owner) {
+						allocs = true
+					}
+				}
+			}
+			if !allocs {
+				continue
+			}
+			stores := false
+			reach := map[*ssa.Function]bool{f: true}
+			for _, g := range w.staticReach(f) {
+				reach[g] = true
+			}
+			for _, st := range w.fieldStores(fo) {
+				if reach[st.Parent()] {
+					stores = true
+				}
+			}
+			if !stores {
+				ok = false
+			}
+		}
+		if ok {
+			neverNil[fo] = 1
+		} else {
+			neverNil[fo] = 2
+		}
+		return ok
+	}
+	for _, f := range w.Funcs(rels...) {
+		for _, c := range calls(f) {
+			cc := c.Common()
+			if cc.IsInvoke() {
+				continue
+			}
+			ld, isLd := cc.Value.(*ssa.UnOp)
+			if !isLd || ld.Op != token.MUL {
+				continue
+			}
+			fa, isFa := ld.X.(*ssa.FieldAddr)
+			if !isFa {
+				continue
+			}
+			fo := fieldObj(fa)
+			if _, isSig := fo.Type().Underlying().(*types.Signature); !isSig || fo.Pkg() == nil || !strings.HasPrefix(fo.Pkg().Path(), M) {
+				continue
+			}
+			n++
+			r.Touch(f)
+			path := pathOf(ld)
+			guarded := false
+			for _, ce := range ctrlEdges(c.Block()) {
+				b, ok := ce.If.Cond.(*ssa.BinOp)
+				if !ok || (b.Op != token.EQL && b.Op != token.NEQ) {
+					continue
+				}
+				other := b.X
+				if isNilConst(b.X) {
+					other = b.Y
+				} else if !isNilConst(b.Y) {
+					continue
+				}
+				if (other == ssa.Value(ld) || pathOf(other) == path) && (b.Op == token.NEQ) == ce.Taken {
+					guarded = true
+				}
+			}
+			how := "dominated by a non-nil test of the same access path"
+			if !guarded {
+				owner := fa.X.Type().Underlying().(*types.Pointer).Elem()
+				if decide(fo, owner) {
+					guarded = true
+					how = "the field is set to a non-nil function wherever the struct is allocated, and never to nil"
+				}
+			}
+			r.Decide("path", fmt.Sprintf("%s: call through %s is safe from nil", fnName(f), path), guarded, how, "the function stored in "+path+" is called without a nil test although it can be nil (not set by the constructor, or set to nil by a setter): the nil call panics, and the panic, which nothing recovers, ends the proxy process", c.Pos())
+		}
+	}
+	if n == 0 {
+		r.Note("func-field calls: none in %v", rels)
+	}
+}
+
+// everyRoundPasses: in every natural loop of f that contains an instruction
+// satisfying pred, every trip from the loop head back to it passes such an
+// instruction. Returns the number of such loops and the head of one that can
+// go round without it.
+func everyRoundPasses(f *ssa.Function, pred func(ssa.Instruction) bool) (n int, bad *ssa.BasicBlock) {
+	g := G(f)
+	for _, l := range natLoops(f) {
+		has := false
+		for b := range l.Blocks {
+			for _, in := range b.Instrs {
+				if pred(in) {
+					has = true
+				}
+			}
+		}
+		if !has {
+			continue
+		}
+		n++
+		head := l.Head.Instrs[0]
+		if pred(head) {
+			continue
+		}
+		for b := range l.Blocks {
+			for _, sc := range b.Succs {
+				if sc != l.Head {
+					continue
+				}
+				last := b.Instrs[len(b.Instrs)-1]
+				if p := g.PathTo([]ssa.Instruction{head}, true, pred, func(i ssa.Instruction) bool { return i == last }); p != nil {
+					bad = l.Head
+				}
+			}
+		}
+	}
+	return n, bad
 }
 
 // scanLoopsExhaustiveRule: a loop that examines a list of values looks at all
